@@ -143,8 +143,10 @@ def _resolve_module_name(ref: str, module: str | None) -> str | None:
         return module
 
     # Easy path, use the qualname if it's provided.
+    #   A dotted name only starts with a module if that module has been imported,
+    #   `Outer.Inner` may as well be a class nested in a class of the caller's module.
     module = ref.split(".", maxsplit=1)[0]
-    if module != ref:
+    if module != ref and module in sys.modules:
         return module
     # Harder path, find the actual object in the stack frame, if possible.
     obj = frames.extract(ref)
